@@ -6,6 +6,7 @@ from common import import_qib, run_correspondence
 PROP = "C17"
 LEAN_FILES = ["QibProofs/Properties/C17.lean"]
 GEN = ("tables",)
+DRIVER = "drv_backend"
 LEVEL_TEXT = ("Lean 4 theorems over a hand-written model of the status state machine and of the retry loop, whose "
               "tables (status enum, terminal set, reply->status map, NW_MAX_RETRIES) are regenerated from the source; "
               "control flow tied to the code by exhaustive scripted-transport histories.")
